@@ -156,14 +156,14 @@ End Fold.
 
 Lemma bloom_k_ge1 p bpk : bparams_ok p -> 1 <= bloom_k p bpk.
 Proof.
-  intros (_ & _ & Hk1 & _). unfold bloom_k.
+  intros (_ & _ & Hk1 & _). unfold bloom_k, bloom_k_old.
   set (k := Z.to_N _). destruct (N.ltb_spec k 1); [lia|].
   destruct (N.ltb_spec (b_kcmp p) k); lia.
 Qed.
 
 Lemma bloom_k_byte p bpk : bparams_ok p -> bloom_k p bpk < 256.
 Proof.
-  intros (_ & _ & _ & Hk & _). unfold bloom_k.
+  intros (_ & _ & _ & Hk & _). unfold bloom_k, bloom_k_old.
   set (q := Z.quot _ _).
   assert (Hq : Z.to_N (q mod 256)%Z < 256).
   { pose proof (Z.mod_pos_bound q 256 eq_refl). lia. }
@@ -173,7 +173,7 @@ Qed.
 
 Lemma bloom_k_not_reserved p bpk : bparams_ok p -> bloom_k p bpk <= b_ckmax p.
 Proof.
-  intros (_ & _ & Hk1 & _ & Hs & Hc). unfold bloom_k.
+  intros (_ & _ & Hk1 & _ & Hs & Hc & _). unfold bloom_k, bloom_k_old.
   set (k := Z.to_N _). destruct (N.ltb_spec k 1); [lia|].
   destruct (N.ltb_spec (b_kcmp p) k); lia.
 Qed.
@@ -183,6 +183,13 @@ Proof.
   unfold bloom_nbytes. set (x := w32 _).
   assert (Hx : x < 2 ^ 32) by apply w32_lt.
   pose proof (N.mul_div_le x 8). change (2 ^ 32) with 4294967296 in *. lia.
+Qed.
+
+Lemma contains_nbits_small p n : 2 ^ 32 <= b_probebits p -> n * 8 < 2 ^ 32 -> contains_nbits p n = n * 8.
+Proof.
+  intros Hp Hn. unfold contains_nbits. destruct (N.ltb_spec n (b_probebits p / 8)); [reflexivity|].
+  assert (H8 : 2 ^ 32 / 8 <= b_probebits p / 8) by (apply N.div_le_mono; [discriminate|exact Hp]).
+  change (2 ^ 32 / 8) with 536870912 in H8. change (2 ^ 32) with 4294967296 in Hn. lia.
 Qed.
 
 Lemma generate_into_nonempty p bpk hashes alloc : hashes <> [] ->
@@ -225,7 +232,7 @@ Proof.
     unfold bloom_contains. rewrite fold_length, Hld.
     destruct (N.ltb_spec (nbytes + 1) 2) as [Hs|Hs]; [unfold nbits in Hz; lia|].
     replace (nbytes + 1 - 1) with nbytes by lia.
-    rewrite (w32_small (nbytes * 8)) by exact Hnb. fold nbits.
+    rewrite (contains_nbits_small p nbytes) by (try exact Hnb; apply ok). fold nbits.
     rewrite fold_get_other.
     2: exact Hz.
     2: { intros pos Hpos. unfold nbits in Hpos.
@@ -309,42 +316,149 @@ Proof.
     now rewrite fold_length, lenN_set_at, zeros_length.
 Qed.
 
-(* Generate does not panic as long as the bit count keys * bitsPerKey stays below 2^32 - 7
-   (the uint32 computation (nBits + 7) / 8 then cannot wrap to 0) *)
-Theorem bloom_generate_total p bpk hashes :
-  1 <= b_mincmp p -> 1 <= b_minset p -> b_minset p < 2 ^ 32 - 7 ->
-  (0 <= bpk)%Z -> (Z.of_N (lenN hashes) * bpk < 2 ^ 32 - 7)%Z ->
-  exists f, bloom_generate p bpk hashes = Some f.
+(* ---- totality (the repaired code) ---- *)
+
+Lemma bloom_bits_le p n f : b_maxbits p = 2 ^ 32 - 8 -> bloom_bits p n f <= 2 ^ 32 - 8.
 Proof.
-  intros Hc Hs1 Hs2 Hb Hn. unfold bloom_generate.
+  intros Hm. unfold bloom_bits. rewrite Hm.
+  change (2 ^ 32 - 8) with 4294967288.
+  destruct ((n =? 0) || (f <=? 0)%Z); [lia|].
+  destruct (N.ltb_spec (4294967288 / Z.to_N f) n) as [H|H].
+  - rewrite w32_small by (change (2 ^ 32) with 4294967296; lia). lia.
+  - assert (Hle : n * Z.to_N f <= 4294967288).
+    { destruct (N.eq_dec (Z.to_N f) 0) as [E|E]; [rewrite E; lia|].
+      pose proof (N.mul_div_le 4294967288 (Z.to_N f) E). nia. }
+    rewrite N.mod_small by (change (2 ^ 64) with 18446744073709551616; lia).
+    rewrite w32_small by (change (2 ^ 32) with 4294967296; lia). exact Hle.
+Qed.
+
+Lemma bloom_nbytes_pos p bpk n : bparams_tot_ok p -> bloom_nbytes p bpk n <> 0.
+Proof.
+  intros (Hc & Hs1 & Hs2 & Hm & _). unfold bloom_nbytes.
+  pose proof (bloom_bits_le p n (bloom_new bpk) Hm) as H0.
+  set (nb0 := bloom_bits p n (bloom_new bpk)) in *.
+  set (nb1 := if nb0 <? b_mincmp p then b_minset p else nb0).
+  change (2 ^ 32) with 4294967296 in *.
+  assert (H1 : 1 <= nb1 /\ nb1 < 4294967296 - 7).
+  { unfold nb1. destruct (N.ltb_spec nb0 (b_mincmp p)); lia. }
+  rewrite w32_small by (change (2 ^ 32) with 4294967296; lia).
+  intros Hd. apply N.div_small_iff in Hd; lia.
+Qed.
+
+(* Generate returns for every int bitsPerKey (negative and huge included) and every key list *)
+Theorem bloom_generate_total p bpk hashes : bparams_tot_ok p -> exists f, bloom_generate p bpk hashes = Some f.
+Proof.
+  intros ok. unfold bloom_generate.
   destruct hashes as [|h0 t] eqn:Eh; [eexists; reflexivity|]. rewrite <- Eh in *.
   assert (Hne : hashes <> []) by (rewrite Eh; discriminate). clear Eh h0 t.
   rewrite generate_into_nonempty by exact Hne. cbv zeta.
   pose proof (bloom_nbytes_bound p bpk (lenN hashes)) as Hnb.
   rewrite (w32_small (bloom_nbytes p bpk (lenN hashes) * 8)) by exact Hnb.
-  assert (Hz : bloom_nbytes p bpk (lenN hashes) <> 0).
-  { unfold bloom_nbytes.
-    rewrite Z.mod_small by (change (2 ^ 32)%Z with 4294967296%Z in *; lia).
-    set (nb0 := Z.to_N (Z.of_N (lenN hashes) * bpk)).
-    assert (H0 : nb0 < 2 ^ 32 - 7).
-    { unfold nb0. change (2 ^ 32)%Z with 4294967296%Z in *. change (2 ^ 32) with 4294967296 in *. lia. }
-    set (nb1 := if nb0 <? b_mincmp p then b_minset p else nb0).
-    assert (H1 : 1 <= nb1 /\ nb1 < 2 ^ 32 - 7).
-    { unfold nb1. destruct (N.ltb_spec nb0 (b_mincmp p)); lia. }
-    change (2 ^ 32) with 4294967296 in *.
-    rewrite w32_small by (change (2 ^ 32) with 4294967296; lia).
-    intros Hd. apply N.div_small_iff in Hd; lia. }
+  pose proof (bloom_nbytes_pos p bpk (lenN hashes) ok) as Hz.
   destruct (N.eqb_spec (bloom_nbytes p bpk (lenN hashes) * 8) 0); [lia|]. cbn [andb].
   eexists; reflexivity.
 Qed.
 
-(* Contains returns (does not divide by zero) on every filter shorter than 512 MiB *)
-Theorem bloom_contains_total p f key : lenN f <= 2 ^ 29 -> exists b, bloom_contains p f key = Some b.
+Lemma contains_nbits_pos p n : b_probebits p = 2 ^ 32 -> 1 <= n -> contains_nbits p n <> 0.
 Proof.
-  intros Hl. unfold bloom_contains.
+  intros Hp Hn. unfold contains_nbits. rewrite Hp.
+  destruct (N.ltb_spec n (2 ^ 32 / 8)); [lia|]. discriminate.
+Qed.
+
+(* Contains returns on every filter (every byte string, of any length) *)
+Theorem bloom_contains_total p f key : bparams_tot_ok p -> exists b, bloom_contains p f key = Some b.
+Proof.
+  intros (_ & _ & _ & _ & Hp). unfold bloom_contains.
   destruct (N.ltb_spec (lenN f) 2); [eexists; reflexivity|].
   destruct (b_ckmax p <? get_at f (lenN f - 1)); [eexists; reflexivity|].
-  change (2 ^ 29) with 536870912 in Hl.
-  rewrite w32_small by (change (2 ^ 32) with 4294967296; lia).
-  destruct (N.eqb_spec ((lenN f - 1) * 8) 0); [lia|]. cbn [andb]. eexists; reflexivity.
+  pose proof (contains_nbits_pos p (lenN f - 1) Hp) as Hz.
+  destruct (N.eqb_spec (contains_nbits p (lenN f - 1)) 0) as [E|E]; [exfalso; apply Hz; [lia|exact E]|].
+  cbn [andb]. eexists; reflexivity.
+Qed.
+
+(* ---- Contains on (length, byte function) is Contains on the list ---- *)
+
+Lemma chk_probes_fn_eq j : forall nb d kh f, chk_probes_fn j nb d kh (get_at f) = chk_probes j nb d kh f.
+Proof. induction j as [|j IH]; intros; cbn [chk_probes_fn chk_probes]; [reflexivity|]. now rewrite IH. Qed.
+
+Lemma bloom_contains_fn_eq p f key : bloom_contains_fn p (lenN f) (get_at f) key = bloom_contains p f key.
+Proof.
+  unfold bloom_contains_fn, bloom_contains_with, bloom_contains. cbv zeta.
+  now rewrite chk_probes_fn_eq.
+Qed.
+
+Lemma bloom_contains_fn_old_eq p f key : bloom_contains_fn_old p (lenN f) (get_at f) key = bloom_contains_old p f key.
+Proof.
+  unfold bloom_contains_fn_old, bloom_contains_with, bloom_contains_old. cbv zeta.
+  now rewrite chk_probes_fn_eq.
+Qed.
+
+(* ---- the code before the repairs: where it panicked, and that nothing else changed ---- *)
+
+(* the old Contains divides by zero on every filter of 2^29+1 bytes whose last byte is in 1..30 *)
+Lemma bloom_contains_old_panics p f key :
+  lenN f = 2 ^ 29 + 1 -> 1 <= get_at f (2 ^ 29) -> get_at f (2 ^ 29) <= b_ckmax p ->
+  bloom_contains_old p f key = None.
+Proof.
+  intros Hl H1 H2. unfold bloom_contains_old. cbv zeta. rewrite Hl.
+  change (2 ^ 29 + 1 - 1) with (2 ^ 29). change (2 ^ 29 + 1 <? 2) with false. cbv iota.
+  change (contains_nbits_old (2 ^ 29)) with 0.
+  destruct (N.ltb_spec (b_ckmax p) (get_at f (2 ^ 29))); [lia|].
+  destruct (N.ltb_spec 0 (get_at f (2 ^ 29))); [reflexivity|lia].
+Qed.
+
+Lemma bloom_contains_old_not_total p : 1 <= b_ckmax p ->
+  ~ (forall f key, exists b, bloom_contains_old p f key = Some b).
+Proof.
+  intros Hk H.
+  destruct (H (set_at (zeros (2 ^ 29 + 1)) (2 ^ 29) 1) []) as [b Hb].
+  rewrite bloom_contains_old_panics in Hb; [discriminate| | |].
+  - now rewrite lenN_set_at, zeros_length.
+  - rewrite get_set_at_same; [lia|]. rewrite zeros_length. change (2 ^ 29) with 536870912. lia.
+  - rewrite get_set_at_same; [lia|]. rewrite zeros_length. change (2 ^ 29) with 536870912. lia.
+Qed.
+
+Lemma bloom_bits_old_domain p n bpk : b_maxbits p = 2 ^ 32 - 8 ->
+  (0 <= bpk)%Z -> (Z.of_N n * bpk < 2 ^ 32 - 7)%Z ->
+  bloom_bits p n (bloom_new bpk) = Z.to_N ((Z.of_N n * bpk) mod 2 ^ 32)%Z.
+Proof.
+  intros Hm Hb Hn. change (2 ^ 32)%Z with 4294967296%Z in *.
+  rewrite Z.mod_small by lia.
+  unfold bloom_new. destruct (Z.ltb_spec bpk 0); [lia|].
+  unfold bloom_bits. rewrite Hm. change (2 ^ 32 - 8) with 4294967288.
+  destruct (N.eqb_spec n 0) as [->|Hn0]; cbn [orb]; [reflexivity|].
+  destruct (Z.leb_spec bpk 0); [replace bpk with 0%Z by lia; now rewrite Z.mul_0_r|].
+  assert (Hle : n * Z.to_N bpk <= 4294967288) by lia.
+  destruct (N.ltb_spec (4294967288 / Z.to_N bpk) n) as [Hd|Hd].
+  - exfalso. assert (n <= 4294967288 / Z.to_N bpk); [|lia].
+    apply N.div_le_lower_bound; lia.
+  - rewrite N.mod_small by (change (2 ^ 64) with 18446744073709551616; lia).
+    rewrite w32_small by (change (2 ^ 32) with 4294967296; lia). lia.
+Qed.
+
+(* on the domain of the old totality theorem the repaired Generate writes the same bytes *)
+Theorem bloom_generate_same_on_old_domain p bpk hashes : b_maxbits p = 2 ^ 32 - 8 ->
+  (0 <= bpk)%Z -> (Z.of_N (lenN hashes) * bpk < 2 ^ 32 - 7)%Z ->
+  bloom_generate p bpk hashes = bloom_generate_old p bpk hashes.
+Proof.
+  intros Hm Hb Hn.
+  assert (Hk : bloom_k p bpk = bloom_k_old p bpk).
+  { unfold bloom_k, bloom_new. destruct (Z.ltb_spec bpk 0); [lia|reflexivity]. }
+  assert (Hy : bloom_nbytes p bpk (lenN hashes) = bloom_nbytes_old p bpk (lenN hashes)).
+  { unfold bloom_nbytes, bloom_nbytes_old. now rewrite bloom_bits_old_domain. }
+  unfold bloom_generate, bloom_generate_into, bloom_generate_old. cbv zeta.
+  now rewrite Hk, Hy.
+Qed.
+
+(* on every filter of at most 2^29 bytes the repaired Contains gives the same answer *)
+Theorem bloom_contains_same_on_old_domain p f key : b_probebits p = 2 ^ 32 ->
+  lenN f <= 2 ^ 29 -> bloom_contains p f key = bloom_contains_old p f key.
+Proof.
+  intros Hp Hl. unfold bloom_contains, bloom_contains_old. cbv zeta.
+  destruct (N.ltb_spec (lenN f) 2); [reflexivity|].
+  assert (E : contains_nbits p (lenN f - 1) = contains_nbits_old (lenN f - 1)).
+  { change (2 ^ 29) with 536870912 in Hl.
+    rewrite contains_nbits_small by (rewrite ?Hp; change (2 ^ 32) with 4294967296; lia).
+    unfold contains_nbits_old. rewrite w32_small by (change (2 ^ 32) with 4294967296; lia). reflexivity. }
+  now rewrite E.
 Qed.
